@@ -40,13 +40,14 @@ def gen_cases(tier, seed):
     return out
 
 
-def ref_filter(vals, dt, H, force_real):
+def ref_filter(vals, dt, H, force_real, keep_complex=False):
     N = len(vals)
     fr = scipy.fft.fftfreq(2 * N, d=dt)
     h = np.asarray(H(np.abs(fr) if force_real else fr), dtype=complex)
     if force_real:
         h = np.where(fr < 0, np.conj(h), h)
-    return np.real(scipy.fft.ifft(h * scipy.fft.fft(np.concatenate((vals, np.zeros(N))))))[:N]
+    out = scipy.fft.ifft(h * scipy.fft.fft(np.concatenate((vals, np.zeros(N)))))[:N]
+    return out if keep_complex else np.real(out)
 
 
 def run_case(case):
@@ -59,11 +60,14 @@ def run_case(case):
     phi_dep = 0.0 if geom == "axis" else 0.2
     calls = {"dgain": [], "pgain": [], "freq": 0}
     phase0 = 0.0 if rng.random() < 0.4 else float(rng.uniform(-np.pi, np.pi))
+    # a complex directional gain (amplitude and phase of the antenna pattern) in one case out of four: the voltage is then the
+    # *real* filtered signal times that complex number, not the real part of the product
+    cgain = 1.0 if rng.random() < 0.75 else complex(np.exp(1j * float(rng.uniform(-np.pi, np.pi))))
 
     class GainAnt(pa.Antenna):
         def directional_gain(self, theta, phi):
             calls["dgain"].append((float(theta), float(phi)))
-            return 0.3 + np.cos(theta) ** 2 + phi_dep * np.cos(phi)
+            return (0.3 + np.cos(theta) ** 2 + phi_dep * np.cos(phi)) * cgain
 
         def polarization_gain(self, polarization):
             calls["pgain"].append(np.array(polarization, float))
@@ -141,7 +145,7 @@ def run_case(case):
         v.close("dipole directional gain == sin(angle from its axis)", abs(base.directional_gain(theta=th, phi=phi) - np.sin(th)), 1e-12)
         v.close("dipole polarization gain == projection on its axis", abs(base.polarization_gain(pn) - np.dot(pn, base.z_axis)), 1e-12)
     elif kind in ("gain", "system"):
-        dg = 0.3 + np.cos(th) ** 2 + phi_dep * np.cos(phi)
+        dg = (0.3 + np.cos(th) ** 2 + phi_dep * np.cos(phi)) * cgain
         pg = float(np.dot(pn, base.x_axis) + 0.5 * np.dot(pn, base.z_axis))
         H = lambda f: np.exp(1j * phase0) / (1 + 1j * np.asarray(f) / 3e8)
         # the recorders saw the arguments the gains were asked for
@@ -193,7 +197,10 @@ def run_case(case):
     for rep_ in range(2):
         got_f = np.array(ant.apply_response(fs, direction=d, polarization=pol, force_real=fr_).values)
         v.close("a function-backed signal gets the response of the sampled signal with the same values, every time it is asked", float(np.max(np.abs(got_f - want_f))) / max(float(np.max(np.abs(fvals))) * max(abs(base.efficiency / (base.antenna_factor if vt == "field" else 1.0)), 1e-300), 1e-300),
-                1e-9 + 3 * th_tol, repetition=rep_, kind=kind)
+                1e-9 + 3 * th_tol, repetition=rep_, kind=kind,
+                # mechanism observables (kf_complex_gain_function_signal): the gain has an imaginary part, and what comes back is exactly the real part of gain x signal
+                gain_is_complex=bool(abs(np.imag(fac)) > 0),
+                equals_real_part_of_gain_times_signal=bool(float(np.max(np.abs(got_f - np.real(fac * ref_filter(fvals, t[1] - t[0], H, fr_, keep_complex=True))))) <= (1e-9 + 3 * th_tol) * max(float(np.max(np.abs(fvals))) * max(abs(base.efficiency / (base.antenna_factor if vt == "field" else 1.0)), 1e-300), 1e-300)))
     v.close("the incoming function-backed signal is left untouched", float(np.max(np.abs(np.array(fs.values) - fvals))), 1e-15 * max(1.0, float(np.max(np.abs(fvals)))))
     em_ = ant.apply_response(EmptySignal(t, vt), direction=d, polarization=pol, force_real=fr_)
     v.check(np.array_equal(em_.times, t) and not np.any(em_.values) and em_.value_type == Signal.Type.voltage, "an empty signal of an accepted type gives an all-zero voltage on its grid")
@@ -231,3 +238,11 @@ def run_case(case):
     sample = {"kind": kind, "geometry": geom, "z_axis": base.z_axis.tolist(), "direction": d.tolist(), "polarization": pol.tolist(), "value_type": vt,
               "theta_deg": float(np.degrees(th)), "factor": float(fac), "peak_response": float(np.max(np.abs(ov)))}
     return v.result(decided=True, nontrivial=bool(np.max(np.abs(ov)) > 1e-9 * sc_nat), sample=sample)
+
+
+def kf_complex_gain_function_signal(case, viol):
+    """A function-backed signal scaled by a complex gain keeps only the real part of the gain (its values array is real), a sampled
+    signal keeps the complex product: measured per case (gain complex, returned values == Re(gain x filtered signal))."""
+    d = viol["detail"]
+    return (viol["clause"].startswith("a function-backed signal gets the response of the sampled signal") and d.get("gain_is_complex") is True
+            and d.get("equals_real_part_of_gain_times_signal") is True)
